@@ -355,8 +355,80 @@ fn c14_neighbours_built(ctx: &mut Ctx, t: &Term, e: &Term, kind: &str, pres: &[V
 /// "Sources built from the same constructor calls are equal" also when observers ran while one of
 /// them was still being built: a ReplaceSource gets its replacements one by one with an observer
 /// call after a prefix of them; it must equal the plainly built twin, hash alike and answer alike.
+/// A ConcatSource built by add() with one observer call after the first `gap` children (gap 0: on
+/// the still empty ConcatSource), for every gap and observer; first element = built without observing.
+pub fn staged_concat_builds(t: &Term) -> Option<(BoxSource, Vec<(String, Result<BoxSource, String>)>)> {
+  use rspack_sources::{ConcatSource, SourceExt};
+  let Term::Concat { children, .. } = t else { return None };
+  let add_all = |c: &mut ConcatSource, cs: &[Term]| {
+    for ch in cs {
+      match ch.build_typed() {
+        crate::term::Built::Concat(cc) => c.add(cc),
+        crate::term::Built::Box(b) => c.add(b),
+      }
+    }
+  };
+  let mut plain = ConcatSource::default();
+  add_all(&mut plain, children);
+  let mut out = Vec::new();
+  for gap in 0..children.len() {
+    for pre in PRES {
+      let built = observe::guarded(|| {
+        let mut c = ConcatSource::default();
+        add_all(&mut c, &children[..gap]);
+        match pre {
+          Pre::Source => drop(c.source().len()),
+          Pre::MapT => drop(c.map(&MapOptions::new(true))),
+          Pre::MapF => drop(c.map(&MapOptions::new(false))),
+          Pre::StreamT => drop(observe::stream(&c, true, false)),
+          Pre::Hash => drop(hash_dyn(&c)),
+          Pre::Size => drop(c.size()),
+          Pre::Clone => c = c.clone(),
+        }
+        add_all(&mut c, &children[gap..]);
+        c.boxed()
+      });
+      out.push((format!("{pre:?} after {gap} of {} children", children.len()), built));
+    }
+  }
+  Some((plain.boxed(), out))
+}
+
+fn c14_staged_concat(ctx: &mut Ctx, t: &Term) {
+  let Some((plain, builds)) = staged_concat_builds(t) else { return };
+  let text = model::model_text(t);
+  let reference = observe_all(plain.as_ref(), &text);
+  let h_ref = hash_dyn(plain.as_ref());
+  for (how, built) in builds {
+    ctx.evaluations += 1;
+    ctx.transitions += 2;
+    let case = || json!({"kind": "staged_concat", "term": serde_json::to_value(t).unwrap(), "observer": how});
+    let b = match built {
+      Ok(b) => b,
+      Err(e) => {
+        ctx.violation("panic", "staged concat".into(), None, case, t.size(), e);
+        continue;
+      }
+    };
+    ctx.nontrivial += 1;
+    ctx.count("staged_concat_builds");
+    if !observe::guarded(|| &plain == &b).unwrap_or(false) {
+      ctx.violation("twins_not_equal", "staged concat".into(), None, case, t.size(), format!("ConcatSource built by add() with {how}: not equal to the twin built without observing"));
+    }
+    if hash_dyn(b.as_ref()) != h_ref {
+      ctx.violation("equal_but_hash_differs", "staged concat".into(), None, case, t.size(), format!("ConcatSource built by add() with {how}: hash differs from the twin built without observing"));
+    }
+    let ob = observe_all(b.as_ref(), &text);
+    if ob.answers != reference.answers {
+      let which = ob.answers.iter().zip(&reference.answers).position(|(x, y)| x != y);
+      ctx.violation("equal_but_observably_different", format!("staged concat {:?}", which.map(|i| OBS_CALLS[i])), None, case, t.size(), format!("ConcatSource built by add() with {how}: {:?} answers differently from the twin built without observing", which.map(|i| OBS_CALLS[i])));
+    }
+  }
+}
+
 pub fn c14_staged(ctx: &mut Ctx, t: &Term) {
   use rspack_sources::{ReplaceSource, SourceExt};
+  c14_staged_concat(ctx, t);
   let Term::Replace(inner, repls) = t else { return };
   if repls.len() < 2 {
     return;
@@ -512,6 +584,15 @@ fn edit_mapspec(m: &crate::term::MapSpec, what: &str) -> Vec<(String, crate::ter
       _ => x.contents = Some(vec!["new content".into()]),
     }
     push("sources_content", x);
+  }
+  // all-empty tables of another shape (absent / [""] / ["", ""]) are different values: sources_content()
+  // answers differently, and a serialisation that skips them does not make them one value
+  if m.contents.as_ref().map_or(true, |c| c.iter().all(|s| s.is_empty())) {
+    let mut x = m.clone();
+    let mut c = x.contents.take().unwrap_or_default();
+    c.push(String::new());
+    x.contents = Some(c);
+    push("sources_content_one_more_empty_entry", x);
   }
   {
     let mut x = m.clone();
@@ -823,6 +904,24 @@ pub fn pool_hash_digest(pool: &[Term]) -> u64 {
   h.finish()
 }
 
+pub fn c20_staged_concat(ctx: &mut Ctx, t: &Term) {
+  if let Some((plain, builds)) = staged_concat_builds(t) {
+    let h_plain = hash_dyn(plain.as_ref());
+    for (how, built) in builds {
+      ctx.evaluations += 1;
+      ctx.count("staged_concat_builds");
+      match built {
+        Ok(b) => {
+          if hash_dyn(b.as_ref()) != h_plain {
+            ctx.violation("hash_depends_on_build_history", String::new(), None, || json!({"kind": "staged_concat", "term": serde_json::to_value(t).unwrap(), "observer": how}), t.size(), format!("ConcatSource built by add() with {how}: hash differs from the same children added without observing (its text is the full text, its hash is not)"));
+          }
+        }
+        Err(e) => ctx.violation("panic", e.clone(), None, || json!({"kind": "staged_concat", "term": serde_json::to_value(t).unwrap(), "observer": how}), t.size(), e),
+      }
+    }
+  }
+}
+
 pub fn c20_worker(tier: &str, k: usize, n: usize, ctx: &mut Ctx) {
   let pool = pool(tier);
   let mut st = Striper::new(k, n);
@@ -859,6 +958,8 @@ pub fn c20_worker(tier: &str, k: usize, n: usize, ctx: &mut Ctx) {
         Err(e) => ctx.violation("panic", e.clone(), None, || json!({"term": serde_json::to_value(t).unwrap(), "prefix": serde_json::to_value(p).unwrap()}), t.size(), e),
       }
     }
+    // ... and however the tree was put together: a ConcatSource observed while it was being filled
+    c20_staged_concat(ctx, t);
     // sensitivity: every single edit at every node
     for (kind, e) in edits(t) {
       // excluded by the statement / reading 6.3: the name of a SourceMapSource and debugId are
